@@ -75,9 +75,11 @@ class StubSim(mosaik_api_v3.Simulator):
         return self.meta
 
     def create(self, num, model, **kw):
+        first = {"eid": "e", "type": model}
         if self.spec.get("child"):
-            return [{"eid": "e", "type": model, "children": [{"eid": "k", "type": "K"}]}]
-        return [{"eid": "e", "type": model}]
+            first["children"] = [{"eid": "k", "type": "K"}]
+        # a second entity `f` of the same model (spec ents=2; created by one create(2) call)
+        return [first, {"eid": "f", "type": model}][:num]
 
     def setup_done(self):
         self.ctx.ev("U", self.sid)
@@ -136,25 +138,29 @@ class StubSim(mosaik_api_v3.Simulator):
         if "get_data" in self.ctx.gate_kinds and self.ctx.gated and self.sid not in self.ctx.sync:
             yield self.ctx.loop.gate((self.sid, "get_data", k))
         data = {}
-        ent = {}
-        want = outputs.get("e", [])
         none_now = k in (sp.get("none_at") or ())
-        if sp["type"] != "event-based" and "po" in want and sp.get("po", True):
-            ent["po"] = None if none_now else f"{self.sid}{k}"
+        d = None
         if sp["type"] != "time-based":
             d = _idx(sp.get("emit"), k, sp.get("emit_default"))
-            if d is not None:
-                if "eo" in want:
-                    ent["eo"] = None if none_now else f"{self.sid}{k}e"
-                if d != 0 or sp.get("explicit_time"):
-                    data["time"] = self.time + d
+            if d is not None and (d != 0 or sp.get("explicit_time")):
+                data["time"] = self.time + d
         elif sp.get("explicit_time"):
             data["time"] = self.time
+        for eid in sorted(outputs):
+            if eid not in ("e", "f"):
+                continue
+            want = outputs[eid]
+            mark = "" if eid == "e" else "F"       # tokens of the second entity: A3F / A3Fe
+            ent = {}
+            if sp["type"] != "event-based" and "po" in want and sp.get("po", True):
+                ent["po"] = None if none_now else f"{self.sid}{k}{mark}"
+            if d is not None and "eo" in want:
+                ent["eo"] = None if none_now else f"{self.sid}{k}{mark}e"
+            if ent:
+                data[eid] = ent
         bad = (sp.get("bad_time") or {}).get(str(k))
         if bad is not None:
             data["time"] = self._bad_value(bad, self.time, None)
-        if ent:
-            data["e"] = ent
         self.ctx.ev("D", self.sid, k, self.time, json.dumps(data, sort_keys=True))
         return data
 
